@@ -26,7 +26,12 @@ def main() -> int:
     print(f"property {prop}: {d.get('key')}\n  recorded: {d.get('what')}\n  recorded at repo HEAD {d.get('repo_head')}")
     bad = None
     try:
-        if rep.get('kind') == 'loopfam' and 'cfg' in rep:
+        if rep.get('kind') == 'fsolve':
+            from checks.fsolve import explore_fsolve
+            r = explore_fsolve(rep['cfg'], replay_inputs=rep['inputs'])
+            print(f"  Fortran engine (machine code): {r['impl']}\n  Python engine: {r['python_engine']}")
+            bad = r['bad']
+        elif rep.get('kind') == 'loopfam' and 'cfg' in rep:
             cfg, inp = rep['cfg'], rep['inputs']
             if prop in ('C02', 'C06', 'C04') and cfg.get('part') != 'natural' and 'N' in cfg:
                 from checks.loopfam import replay_concrete
